@@ -309,7 +309,10 @@ class World:
             self.protos.append(p)
         self.sessions = [None] * NS
         self.ids = [(self._uuid(), self._uuid(), self._uuid(), rng.randrange(1, 1 << 31)) for _ in range(NS)]
+        # packet IDs (LLUDP sequence numbers): one world in four counts up from a small number as a fresh
+        # viewer would, the others take them from the whole 32-bit range in arbitrary order (see _next_pid)
         self.pid = rng.randrange(1, 200)
+        self.pid_wild = rng.random() < 0.75
         self.cursor = rng.randrange(1 << 30)
 
     def _uuid(self):
@@ -339,8 +342,27 @@ class World:
             handle=None if mode == 1 else handle)
 
     # --- datagrams ----------------------------------------------------------------------------
+    PID_SPECIAL = (0, 1, 2, 255, 256, 511, 10000, 10001, 0xFFFF, 0x10000, 0xFFFFFE, 0xFFFFFF, 0x1000000,
+                   0x7FFFFFFF, 0x80000000, 0xFFFFFFFE, 0xFFFFFFFF)
+
     def _next_pid(self):
-        self.pid += self.rng.choice([1, 1, 1, 2, 7])
+        """Every 32-bit value is a legal packet ID and the property makes delivery depend on none of them:
+        small steps, repeats (resends), named boundary values (24/31/32-bit wrap-around), huge jumps up
+        and down, and uniformly random IDs, in any order."""
+        rng = self.rng
+        c = rng.random() if self.pid_wild else 0.0
+        if c < 0.35:
+            self.pid = (self.pid + rng.choice([1, 1, 1, 2, 7])) & 0xFFFFFFFF
+        elif c < 0.43:
+            pass
+        elif c < 0.60:
+            self.pid = rng.choice(self.PID_SPECIAL)
+        elif c < 0.72:
+            self.pid = (self.pid + rng.choice([9999, 10001, 65536, 1 << 24, 1 << 31])) & 0xFFFFFFFF
+        elif c < 0.88:
+            self.pid = (self.pid - rng.choice([1, 500, 9999, 10001, 20002, 65536, 1 << 24, 1 << 31])) & 0xFFFFFFFF
+        else:
+            self.pid = rng.randrange(1 << 32)
         return self.pid
 
     def payload(self, dkey, k, s=0):
@@ -1109,6 +1131,8 @@ def run(chk: Check):
         "the property is silent (either outcome accepted, bound to the observation) for: circuits marked dead by "
         "CloseCircuit/DisableSimulator, datagrams whose header decodes but whose body does not, banned messages sent BY the viewer",
         "an exception escaping datagram_received is a discard (asyncio logs and drops it)",
+        "packet IDs of valid datagrams are arbitrary 32-bit values in arbitrary order (repeats, wrap-around, jumps of more "
+        "than the injection window up and down); the forwarded bytes, ID included, are compared / recomputed by TLC",
         "domain-name (ATYP 3) requests never match a circuit: circuits are keyed by IP address and port",
     ]
     quick = chk.tier == "quick"
